@@ -88,6 +88,47 @@ pub fn measure(t: &Treap<Plain>) -> Check {
     Check { n: nodes, height, bound, heap_lt: lt, heap_gt: gt, nodes }
 }
 
+/// Depth of the search path to index `pos` and of both spines, with heap order along them:
+/// O(height), so it can run every few operations.  A degenerate chain grows exactly where
+/// nodes are being inserted, so probing the last insertion point catches it while it is short
+/// (instead of after a quadratic amount of work at the next full walk).
+pub fn probe_paths(t: &Treap<Plain>, pos: usize) -> (usize, bool, bool) {
+    let (mut depth_max, mut lt, mut gt) = (0usize, false, false);
+    for mode in 0..3 {
+        let mut cur = t.root.as_deref();
+        let mut depth = 0usize;
+        let mut p = pos;
+        while let Some(n) = cur {
+            depth += 1;
+            let lsz = n.left.as_ref().map(|l| l.item.sz).unwrap_or(0);
+            let next = match mode {
+                0 => n.left.as_deref(),
+                1 => n.right.as_deref(),
+                _ => {
+                    if p < lsz {
+                        n.left.as_deref()
+                    } else if p == lsz {
+                        None
+                    } else {
+                        p -= lsz + 1;
+                        n.right.as_deref()
+                    }
+                }
+            };
+            if let Some(c) = next {
+                if n.priority < c.priority {
+                    lt = true;
+                } else if n.priority > c.priority {
+                    gt = true;
+                }
+            }
+            cur = next;
+        }
+        depth_max = depth_max.max(depth);
+    }
+    (depth_max, lt, gt)
+}
+
 fn in_order_keys(t: &Treap<Plain>) -> Vec<u32> {
     let mut out = Vec::new();
     let mut stack: Vec<&TreapNode<Plain>> = Vec::new();
@@ -146,9 +187,25 @@ pub fn run_history(history: usize, n: usize, mode: usize, stride: usize, seed: u
     let mut key_sum: u64 = 0;
     let mut key_count: usize = 0;
 
+    let mut ops_since_probe = 0usize;
+    let mut last_pos = 0usize;
     macro_rules! checkpoint {
         ($tree:expr, $force:expr) => {{
             let size = $tree.size();
+            ops_since_probe += 1;
+            if violation.is_none() && ops_since_probe >= 64 && size > 0 {
+                ops_since_probe = 0;
+                let (d, lt, gt) = probe_paths(&$tree, last_pos.min(size - 1));
+                let bound = 5.0 * ((size + 1) as f64).log2() + 20.0;
+                if lt && gt {
+                    violation = Some((format!("treap/heap/{}/", hname), format!("history {} at n={}: parent-child priorities are ordered in both directions along a search path", hname, size)));
+                } else if (d as f64) > bound {
+                    violation = Some((
+                        format!("treap/height/{}/", hname),
+                        format!("history {} (foreign draws: {} stride {}) at n={}: a search path has depth {}, more than 5*log2(n+1)+20 = {:.1}", hname, STRIDES[mode], stride, size, d, bound),
+                    ));
+                }
+            }
             if violation.is_none() && ($force || size >= next_cp) {
                 while next_cp <= size {
                     next_cp *= 2;
@@ -169,7 +226,7 @@ pub fn run_history(history: usize, n: usize, mode: usize, stride: usize, seed: u
         }};
     }
 
-    let mut ins = |t: &mut Treap<Plain>, pos: usize, key: u32, f: &mut Foreign| {
+    let ins = |t: &mut Treap<Plain>, pos: usize, key: u32, f: &mut Foreign| {
         f.before_own_draw();
         t.insert_at(pos, Plain::new(key));
     };
@@ -178,7 +235,7 @@ pub fn run_history(history: usize, n: usize, mode: usize, stride: usize, seed: u
         0 => {
             for i in 0..n {
                 let len = t.size();
-                ins(&mut t, len, i as u32, &mut f);
+                { last_pos = len; ins(&mut t, last_pos, i as u32, &mut f); }
                 inserted += 1;
                 checkpoint!(t, false);
                 if violation.is_some() {
@@ -188,7 +245,7 @@ pub fn run_history(history: usize, n: usize, mode: usize, stride: usize, seed: u
         }
         1 => {
             for i in 0..n {
-                ins(&mut t, 0, i as u32, &mut f);
+                { last_pos = 0; ins(&mut t, last_pos, i as u32, &mut f); }
                 inserted += 1;
                 checkpoint!(t, false);
                 if violation.is_some() {
@@ -199,7 +256,7 @@ pub fn run_history(history: usize, n: usize, mode: usize, stride: usize, seed: u
         2 => {
             for i in 0..n {
                 let len = t.size();
-                ins(&mut t, len / 2, i as u32, &mut f);
+                { last_pos = len / 2; ins(&mut t, last_pos, i as u32, &mut f); }
                 inserted += 1;
                 checkpoint!(t, false);
                 if violation.is_some() {
@@ -210,7 +267,7 @@ pub fn run_history(history: usize, n: usize, mode: usize, stride: usize, seed: u
         3 => {
             for i in 0..n {
                 let len = t.size();
-                ins(&mut t, len, i as u32, &mut f);
+                { last_pos = len; ins(&mut t, last_pos, i as u32, &mut f); }
                 inserted += 1;
                 if i % 7 == 6 {
                     let k = rng.usize_below(t.size() + 1);
@@ -226,7 +283,7 @@ pub fn run_history(history: usize, n: usize, mode: usize, stride: usize, seed: u
         4 => {
             for i in 0..n {
                 let len = t.size();
-                ins(&mut t, len, i as u32, &mut f);
+                { last_pos = len; ins(&mut t, last_pos, i as u32, &mut f); }
                 inserted += 1;
                 checkpoint!(t, false);
                 if violation.is_some() {
@@ -246,7 +303,7 @@ pub fn run_history(history: usize, n: usize, mode: usize, stride: usize, seed: u
             let refill = if violation.is_some() { 0 } else { n / 2 };
             for i in 0..refill {
                 let len = t.size();
-                ins(&mut t, if i % 2 == 0 { len } else { 0 }, (n + i) as u32, &mut f);
+                { last_pos = if i % 2 == 0 { len } else { 0 }; ins(&mut t, last_pos, (n + i) as u32, &mut f); }
                 inserted += 1;
                 checkpoint!(t, false);
                 if violation.is_some() {
@@ -257,6 +314,7 @@ pub fn run_history(history: usize, n: usize, mode: usize, stride: usize, seed: u
         5 | 6 => {
             for i in 0..n {
                 let key = if history == 5 { i as u32 } else { (n - 1 - i) as u32 };
+                last_pos = if history == 5 { t.size() } else { 0 };
                 let (l, r) = std::mem::replace(&mut t, Treap::new()).split_by(|it| it.key < key);
                 f.before_own_draw();
                 t = Treap::merge(l, Treap::merge(Treap::from_item(Plain::new(key)), r));
@@ -269,6 +327,7 @@ pub fn run_history(history: usize, n: usize, mode: usize, stride: usize, seed: u
         }
         7 => {
             for i in 0..n {
+                last_pos = t.size();
                 f.before_own_draw();
                 let single = Treap::from_item(Plain::new(i as u32));
                 t = Treap::merge(std::mem::replace(&mut t, Treap::new()), single);
@@ -282,9 +341,9 @@ pub fn run_history(history: usize, n: usize, mode: usize, stride: usize, seed: u
         8 => {
             for i in 0..n / 2 {
                 let len = t.size();
-                ins(&mut t, len, i as u32, &mut f);
+                { last_pos = len; ins(&mut t, last_pos, i as u32, &mut f); }
                 let len2 = other.size();
-                ins(&mut other, len2, (n / 2 + i) as u32, &mut f);
+                { last_pos = len2; ins(&mut other, last_pos, (n / 2 + i) as u32, &mut f); }
                 inserted += 2;
                 checkpoint!(t, false);
                 if violation.is_some() {
@@ -310,16 +369,16 @@ pub fn run_history(history: usize, n: usize, mode: usize, stride: usize, seed: u
                         t = Treap::merge(r, l);
                     }
                     2 | 3 => {
-                        ins(&mut t, len, i as u32, &mut f);
+                        { last_pos = len; ins(&mut t, last_pos, i as u32, &mut f); }
                         inserted += 1;
                     }
                     4 => {
-                        ins(&mut t, 0, i as u32, &mut f);
+                        { last_pos = 0; ins(&mut t, last_pos, i as u32, &mut f); }
                         inserted += 1;
                     }
                     _ => {
                         let k = rng.usize_below(len + 1);
-                        ins(&mut t, k, i as u32, &mut f);
+                        { last_pos = k; ins(&mut t, last_pos, i as u32, &mut f); }
                         inserted += 1;
                     }
                 }
